@@ -1,0 +1,43 @@
+//go:build verif
+
+// Verification hooks (build tag `verif` only, add-only): the daemon's port-mapping glue - set-up on ADD, tear-down on DEL
+// and from the garbage collector - over a port-mapping handler whose iptables interface the harness supplies, so that
+// the state file handling around the handler can be driven with faults.
+package galaxy
+
+import (
+	"net"
+
+	t020 "github.com/containernetworking/cni/pkg/types/020"
+	corev1 "k8s.io/api/core/v1"
+	galaxyapi "tkestack.io/galaxy/pkg/api/galaxy"
+	"tkestack.io/galaxy/pkg/network/portmapping"
+	utiliptables "tkestack.io/galaxy/pkg/utils/iptables"
+)
+
+// VerifUsePortMappingIPTables installs a port-mapping handler that talks to the given iptables interface.
+func (g *Galaxy) VerifUsePortMappingIPTables(ipt utiliptables.Interface) {
+	g.pmhandler = portmapping.New("")
+	g.pmhandler.Interface = ipt
+}
+
+// VerifSetupPortMapping is the port-mapping part of a CNI ADD: setupPortMapping and, when it fails, cleanupPortMapping.
+func (g *Galaxy) VerifSetupPortMapping(req *galaxyapi.PodRequest, podIP string, pod *corev1.Pod) error {
+	result := &t020.Result{IP4: &t020.IPConfig{IP: net.IPNet{IP: net.ParseIP(podIP), Mask: net.CIDRMask(24, 32)}}}
+	err := g.setupPortMapping(req, req.ContainerID, result, pod)
+	if err != nil {
+		g.cleanupPortMapping(req)
+	}
+	return err
+}
+
+// VerifCleanupPortMapping is the port-mapping part of a CNI DEL.
+func (g *Galaxy) VerifCleanupPortMapping(req *galaxyapi.PodRequest) error {
+	return g.cleanupPortMapping(req)
+}
+
+// VerifCleanIPtables is the callback the garbage collector calls for a dead container.
+func (g *Galaxy) VerifCleanIPtables(containerID string) error { return g.cleanIPtables(containerID) }
+
+// VerifPortMappingHandler returns the daemon's port-mapping handler.
+func (g *Galaxy) VerifPortMappingHandler() *portmapping.PortMappingHandler { return g.pmhandler }
